@@ -347,6 +347,20 @@ def check(rep, F, tier, replay=None):
         if not ok:
             rep.violation("LENIENT", "write-back", "Address::to_bytes no longer writes a malformed address's bytes back unchanged", {})
     wildarms.check(rep, F, "C11")
+    # LENIENT-tail: the lenient (embedded) decoder keeps what it cannot represent exactly
+    rep.rule("LENIENT-tail", "the lenient address decoder used inside larger structures does not ask the parser to ignore leftover bytes: an address followed by extra bytes is kept verbatim as malformed (and written back unchanged) instead of being truncated to a well-formed address")
+    fid_ = find_fn(rep, F, "Address::from_bytes_impl_unsafe")
+    if fid_:
+        fn_ = F.fns[fid_]
+        cs_ = [c for c in F.calls(fid_) if (c.to or "").endswith("Address::from_bytes_internal_impl")]
+        if not cs_:
+            rep.lost("from_bytes_impl_unsafe no longer calls from_bytes_internal_impl")
+        for c in cs_:
+            rep.inst("LENIENT-tail")
+            a_ = fn_["bbs"][c.bb]["t"][3]
+            flag = a_[1] if len(a_) > 1 else None
+            if flag and flag[0] == "k" and str(flag[1]) == "true":
+                rep.violation("LENIENT-tail", "Address::from_bytes_impl_unsafe|ignore_leftover_bytes", "the lenient decoder parses with ignore_leftover_bytes = true: a TransactionOutput whose address field is a valid enterprise / base / reward address followed by extra bytes decodes to that address without the extra bytes, and re-encodes to different bytes (the strict parser rejects the same input with TrailingData)", {})
     # Byron attributes are stored as read: no constructor or decoder may normalise them (e.g. drop an explicit mainnet magic)
     rep.rule("BYRON-verbatim", "every function that builds a Byron `Attributes` value stores derivation_path and protocol_magic exactly as given / read: the stored operands pass through no filtering or mapping call (Option::filter / map / and_then, NetworkInfo lookups), so an address that spells out a redundant attribute is re-emitted with it")
     ATTR = [a for a in F.adts if a.endswith("legacy_address::address::Attributes")]
